@@ -36,8 +36,19 @@ Definition f_group (G : Z) (I : list row) : list row :=
   | r :: rest => group_from G (mkrow (rt r) (re r) (rid r) 1) rest
   end.
 
-(* selection by integer code for the extracted driver: 0 count, 1 copy, 2 group (gap = kl) *)
+(* several short output rows per input row: "bricks" of length 2 laid from rt r + off - 2 in steps of 2,
+   clipped to the row.  Two such outputs with off = 0 and off = 1 have staggered cut points; they are
+   NOT nested, and make cache_beyond walk down one brick per split (used to exercise its trial limit) *)
+Definition brick (off : Z) (r : row) (k : nat) : row :=
+  let s := rt r + off + 2 * Z.of_nat k - 2 in
+  mkrow (Z.max (rt r) s) (Z.min (re r) (s + 2)) (rid r) (Z.of_nat k).
+Definition bricks_of (off : Z) (r : row) : list row :=
+  filter (fun o => rt o <? re o) (map (brick off r) (seq 0 (Z.to_nat (re r - rt r) + 2))).
+Definition f_bricks (off : Z) (I : list row) : list row := flat_map (bricks_of off) I.
+
+(* selection by integer code for the extracted driver: 0 count, 1 copy, 2 group (gap = kl), 3 bricks (off = kl) *)
 Definition kernel_of_code (code kl kr : Z) : list row -> list row :=
   if code =? 0 then f_count kl kr
   else if code =? 1 then f_copy
-  else f_group kl.
+  else if code =? 2 then f_group kl
+  else f_bricks kl.
